@@ -113,6 +113,12 @@ for _b in (315, 317, 330, 354, 377, 382, 383, 446, 455, 508, 509, 510, 544, 569,
     CONFIGS["pf-%d" % _b] = _cfg(OPTS=dict(FP_PRIME=_b, BN_PRECI=max(1024, 2 * _b + 64)))
 # B48_P575 is only selectable with FP_QNRES=on and needs a larger precision (C11)
 CONFIGS["pf-575-q"] = _cfg(OPTS=dict(FP_PRIME=575, BN_PRECI=4608, FP_QNRES="on"))
+# BN_PRECI large enough for the twist cofactors of the 765 / 766-bit sets; B12_P638 needs FP_QNRES; a Jacobian
+# twin of pf-315 (the homogeneous complete formulas reject invalid-curve points by accident) (C04 / C12 sweeps)
+CONFIGS["pf-765-b"] = _cfg(OPTS=dict(FP_PRIME=765, BN_PRECI=3200))
+CONFIGS["pf-766-b"] = _cfg(OPTS=dict(FP_PRIME=766, BN_PRECI=3200))
+CONFIGS["pf-638-q"] = _cfg(OPTS=dict(FP_PRIME=638, BN_PRECI=2 * 638 + 64, FP_QNRES="on"))
+CONFIGS["pf-315-jacob"] = _cfg(OPTS=dict(FP_PRIME=315, BN_PRECI=1024, EP_METHD="JACOB;LWNAF;COMBS;INTER;SSWUM"))
 # extension-field method variants (C10)
 CONFIGS["fpx-basic"] = _cfg(OPTS=dict(FPX_METHD="BASIC;BASIC;BASIC"))
 CONFIGS["pf-508-epbasic"] = _cfg(OPTS=dict(FP_PRIME=508, BN_PRECI=2 * 508 + 64, EP_METHD="BASIC;LWNAF;COMBS;INTER;SSWUM"))
